@@ -202,6 +202,12 @@ class ProcessSnapshot(Stream):
     def generate(self, rng):
         spec = PG.gen_spec(rng, behaviours=True, allow_pyproject=rng.random() < 0.15)
         pk = rng.choice(["dir", "tar.gz", "zip"])
+        if pk == "dir" and spec["style"] != "pyproject" and rng.random() < 0.12:
+            # the project holds an absolute link into itself and its script, which cannot be analysed in-process, writes
+            # through it when it is really run (in the scratch copy)
+            spec["abs_symlink"] = True
+            spec["prelude"] = [b for b in spec["prelude"] if b not in ("spawn-uncaught",)] + ["spawn-then-write-link"]
+            spec["exit"] = None
         cwd = rng.choice(["neutral", "neutral", "project", "parent"]) if pk == "dir" else rng.choice(["neutral", "parent"])
         return {"spec": spec, "packaging": pk, "cwd": cwd, "stdin_none": rng.random() < 0.15}
 
@@ -340,6 +346,8 @@ class ProcessSnapshot(Stream):
             fl.append("observed-from-inside")
         if case.get("stdin_none"):
             fl.append("stdin-None")
+        if spec.get("abs_symlink"):
+            fl.append("absolute-link-into-the-project")
         if r.get("cwd_litter"):
             fl.append("script-litters-cwd")
         return fl
